@@ -120,13 +120,13 @@ func genBLengthStruct(w *codewriter, _ *golang.ReadWriteContext, varname string)
 }
 
 func genBLengthList(w *codewriter, rwctx *golang.ReadWriteContext, varname string, depth int) {
-	t := rwctx.Type
 	// list header
 	w.f("off += 5")
 
 	// if element is basic type like int32, we can speed up the calc by sizeof(int32) * len(l)
-	if t.ValueType != nil {
-		if sz := category2WireSize[t.ValueType.Category]; sz > 0 { // fast path for less code
+	// NOTE: rwctx.Type may be a reference to a typedef, which carries no ValueType: use the sub-context
+	if vt := rwctx.ValCtx.Type; vt != nil {
+		if sz := category2WireSize[vt.Category]; sz > 0 { // fast path for less code
 			w.f("off += len(%s) * %d", varnameVal(rwctx.IsPointer, varname), sz)
 			return
 		}
@@ -143,9 +143,9 @@ func genBLengthList(w *codewriter, rwctx *golang.ReadWriteContext, varname strin
 }
 
 func genBLengthMap(w *codewriter, rwctx *golang.ReadWriteContext, varname string, depth int) {
-	t := rwctx.Type
-	kt := t.KeyType
-	vt := t.ValueType
+	// NOTE: rwctx.Type may be a reference to a typedef, which carries no KeyType/ValueType: use the sub-contexts
+	kt := rwctx.KeyCtx.Type
+	vt := rwctx.ValCtx.Type
 
 	// map header
 	w.f("off += 6")
